@@ -1066,3 +1066,71 @@ pub fn order_inputs() -> Vec<Vec<u8>> {
     }
     set.into_iter().collect()
 }
+
+/// Length ladder (space E2.ladder): for EVERY byte length L up to `max_len` an identifier whose
+/// canonical text is exactly L bytes long (three language-id prefixes, the rest filled with
+/// distinct generated variants given out of order) -- a fixed-size buffer, a `len <= N` fast
+/// path or an off-by-one in a length computation has its boundary at some L, and the skeleton
+/// families only visit a handful of lengths.  With `locales`, the same ladder with the extra
+/// length spent on -u- attributes, -t- field values and -x- tags.
+pub fn length_ladder(max_len: usize, locales: bool) -> Vec<Vec<u8>> {
+    fn piece(n_chars: usize, i: usize, lead: char) -> String {
+        // a distinct alphanumeric subtag of exactly n_chars characters
+        if n_chars == 4 && lead == 'v' {
+            // variant of 4: digit + 3 alphanumerics
+            return format!("{}{:03}", (i * 7) % 10, (i * 7919) % 1000);
+        }
+        let w = n_chars - 1;
+        let mut x = format!("{}{:0width$}", lead, (i * 7919 + 13) % 10usize.pow(w.min(9) as u32), width = w);
+        x.truncate(n_chars);
+        x
+    }
+    fn fill(r: usize, lead: char, min_chars: usize) -> Option<Vec<String>> {
+        // r bytes = k pieces of (1 separator + min_chars..=8 characters)
+        if r == 0 {
+            return Some(vec![]);
+        }
+        let (lo, hi) = (min_chars + 1, 9);
+        let k = (r + hi - 1) / hi;
+        if r < lo * k {
+            return None;
+        }
+        let (base, extra) = (r / k, r % k);
+        Some((0..k).map(|i| piece(if i < extra { base } else { base - 1 }, i, lead)).collect())
+    }
+    let mut out = std::collections::BTreeSet::new();
+    for prefix in ["en", "und-Latn-US", "sr-Cyrl", "abcdefgh-001"] {
+        for len in prefix.len()..=max_len {
+            let r = len - prefix.len();
+            if let Some(vs) = fill(r, 'v', 4) {
+                let mut s = prefix.to_string();
+                for v in &vs {
+                    s.push('-');
+                    s.push_str(v);
+                }
+                debug_assert_eq!(s.len(), len);
+                out.insert(s.clone().into_bytes());
+                if locales {
+                    // the same text with one of the variants turned into extension content
+                    for (intro, lead, minc) in [("-u", 'a', 3usize), ("-u-ca", 'c', 3), ("-t-h0", 'w', 3), ("-t-de", 'v', 4), ("-x", 'p', 1)] {
+                        if r > intro.len() {
+                            if let Some(es) = fill(r - intro.len(), lead, minc) {
+                                if es.is_empty() {
+                                    continue;
+                                }
+                                let mut s = format!("{}{}", prefix, intro);
+                                for e in &es {
+                                    s.push('-');
+                                    s.push_str(e);
+                                }
+                                debug_assert_eq!(s.len(), len);
+                                out.insert(s.into_bytes());
+                            }
+                        }
+                    }
+                }
+            }
+        }
+    }
+    out.into_iter().collect()
+}
